@@ -31,6 +31,16 @@ CLAIMS = {
              "point, nor minimality of the smallest tree.",
         note="Trusted: ast, kind tables read from the code (appendix B). Partial by design.",
     ),
+    "C06": dict(
+        technique="label-kind inference inside the union-find + representation-discipline rules (verified flag, edges, cycle merge, path)",
+        design="DESIGN.md section 4 (C06), engine K and rules K12-K17",
+        text="Decides the soundness side only: equivalence and verification are decided through find, the verified mark lives on "
+             "representatives and is carried over every merge, merges link roots and keep weights in step, two-way edges are recorded "
+             "both ways, one-way edges enter a normalised loss-free table and are merged only along a closed cycle, the cycle search is "
+             "never skipped, explanation paths follow recorded edges from the first label to the second. Does NOT decide completeness "
+             "of the cycle search (that every strongly connected component is found).",
+        note="Trusted: ast, kind inference (self[x] is a representative inside EquivalenceDB). Partial by design: 'exactly' is not decided.",
+    ),
     "C07": dict(
         technique="structural inverse-pair check of derived-rule maps + alignment data-flow",
         design="DESIGN.md section 4 (C07), engines M,P",
@@ -150,8 +160,6 @@ NOT_APPLICABLE = {
            "over runtime data); no all-paths code shape decides them. The one structural hazard (extractor root) is decided under C13.",
     "C03": "Correctness of an incremental fixed-point algorithm over all insertion histories is a claim about reachable states "
            "of TableMethod, not code shape; candidate shape rules are either not necessary or already killed by tests.",
-    "C06": "Correctness of union-find + cycle merging over all edge histories; a rule pinning today's statement arrangement "
-           "would reject equally correct rearrangements (false alarm in waiting).",
     "C12": "Object-level equalities through recursive parse-tree walks and a backtracking matcher are value-level; the only "
            "shape facts are exercised by every existing bijection test.",
 }
